@@ -23,7 +23,8 @@ RULE = ('mechanisms (evaluated in Coq against the real functions): random intera
         'order attributes, removals, non-edges, patterns, features, molmeta, modifications) and .itp files (several '
         'moleculetypes, #ifdef) and .mapping files (1-3 block mappings of 1-2 residues, shorthand identifiers with and without '
         '#resid, qualified and bare atom names, integer and float weights, atoms shared between particles, unmapped atoms, reference '
-        'atoms) are printed, loaded and compared field by field; each listed fault is injected at a random '
+        'atoms), and backward .map files (1-3 molecules, origin / destination force-field lists in which some force fields lack the '
+        'block or are unknown, repeated and ! targets) are printed, loaded and compared field by field; each listed fault is injected at a random '
         'position and must be rejected. non-trivial = a file with >= 2 contexts or a mechanism case exercising an error '
         'or a bracket; distinct by input')
 ASSUMPTIONS = ['whole-file equality is differential testing against an expected value computed from the AST (partial: see DESIGN)',
@@ -204,6 +205,8 @@ def generate(rng, tier):
         cases.append({'kind': 'itpfault', 'mols': c13_ff.gen_itp(rng), 'sub': rng.randrange(10 ** 6)})
     for _ in range(100 * k):
         cases.append({'kind': 'mapping', 'file': c13_map.gen_file(rng)})
+    for _ in range(60 * k):
+        cases.append({'kind': 'backmap', 'file': c13_map.gen_backmap(rng)})
     for i in range(40 * k):
         cases.append({'kind': 'mapfault', 'file': c13_map.gen_file(rng), 'fault': c13_map.MAP_FAULTS[i % len(c13_map.MAP_FAULTS)], 'sub': rng.randrange(10 ** 6)})
     return cases
@@ -308,6 +311,8 @@ def run_impl(inp):
                 'text': lines, 'directive': typ}
     if k == 'mapping':
         return c13_map.run(inp['file'])
+    if k == 'backmap':
+        return c13_map.run_backmap(inp['file'])
     if k == 'mapfault':
         return c13_map.run_fault(inp['file'], inp['fault'], inp['sub'])
     if k == 'itp':
@@ -375,7 +380,7 @@ def emit(inp, out):
 
 
 def py_prop(inp, out):
-    if inp['kind'] in ('ff', 'fault', 'itp', 'itpfault', 'mapping', 'mapfault'):
+    if inp['kind'] in ('ff', 'fault', 'itp', 'itpfault', 'mapping', 'mapfault', 'backmap'):
         return out.get('msg')
     return None
 
